@@ -270,6 +270,30 @@ def opGen (j : Json) : Except String Json := do
   | "ladder" => do pure (Json.mkObj (jecs (G10.ladder (← nat (← field j "n")))))
   | _ => throw "bad-kind"
 
+
+/-! ### C07 / C08: Hamiltonians (integer level) -/
+
+def opMajorana (j : Json) : Except String Json := do
+  let n ← nat (← field j "nV")
+  let edges ← listOf pairN (← field j "edges")
+  let w ← ints (← field j "w")
+  if w.length != edges.length then throw "w-length"
+  if edges.any (fun e => e.1 ≥ n || e.2 ≥ n) then throw "edge-out-of-range"
+  let gauges ← match fieldOpt j "gauge_at" with | some g => nats g | none => pure []
+  let gm := gauges.map fun v => jlist jints (Ham.majMatrix n edges (Ham.gaugeW edges w v))
+  pure (Json.mkObj [("A", jlist jints (Ham.majMatrix n edges w)), ("gauged", Json.arr gm.toArray)])
+
+def opBloch (j : Json) : Except String Json := do
+  let n ← nat (← field j "nV")
+  let edges ← listOf pairN (← field j "edges")
+  let cross ← listOf pairI (← field j "cross")
+  let w ← ints (← field j "w")
+  let qs ← listOf pairI (← field j "qs")
+  if w.length != edges.length || cross.length != edges.length then throw "length"
+  if edges.any (fun e => e.1 ≥ n || e.2 ≥ n) then throw "edge-out-of-range"
+  let ms := qs.map fun q => jlist (jlist jpairI) (Ham.blochMatrix n edges cross w q)
+  pure (Json.mkObj [("H2", Json.arr ms.toArray)])
+
 def dispatch (op : String) (j : Json) : Except String Json :=
   match op with
   | "plaquettes" => opPlaquettes j
@@ -281,6 +305,8 @@ def dispatch (op : String) (j : Json) : Except String Json :=
   | "surgery" => opSurgery j
   | "pickle" => opPickle j
   | "gen" => opGen j
+  | "majorana" => opMajorana j
+  | "bloch" => opBloch j
   | "lateq" => opLatEq j
   | _ => throw "bad-op"
 
